@@ -8,12 +8,6 @@
         final(self).linear_constraints == old(self).linear_constraints, final(self).domain == old(self).domain, final(self).bounds == old(self).bounds,
         r matches Some(c) ==> old(self).constraints@ == seq![c] + final(self).constraints@,
         r is None ==> old(self).constraints@.len() == 0 && final(self).constraints@ == old(self).constraints@,
-//@ ASSUMED: the normal form of a comparison between a logic value and a constant says the same as the comparison
-@fn try_normalize_logic_constraint @assumed -> r
-    ensures
-        r matches Some(NormalizedLogicConstraint::Tautology) ==> forall|env: Env| (#[trigger] sem(*lhs, env) is Some && sem(*rhs, env) is Some) ==> cmp_sem(comparison, sem(*lhs, env)->Some_0, sem(*rhs, env)->Some_0),
-        r matches Some(NormalizedLogicConstraint::Assertion { exp, requirement }) ==> exp_fin(exp) && forall|env: Env| (#[trigger] sem(*lhs, env) is Some && sem(*rhs, env) is Some) ==>
-            sem(exp, env) is Some && (cmp_sem(comparison, sem(*lhs, env)->Some_0, sem(*rhs, env)->Some_0) <==> truthy(sem(exp, env)->Some_0) == (requirement is MustBeTrue)),
 @fn lower_all_constraints @attr
 #[verifier::exec_allows_no_decreases_clause]
 @fn lower_all_constraints -> res
@@ -58,10 +52,11 @@
         lemma_step(q0, popped, a, b, context, c);
         popped = popped.push(c);
     }
-// a comparison the (assumed) normal form calls a tautology: nothing is emitted
+// a comparison the normal form calls a tautology: nothing is emitted
 @fn lower_all_constraints @before "continue" #2
     proof {
         assert forall|env: Env| #[trigger] lz_ok(context, env) implies c_holds_w(c, env) by {
+            assert(dom_ok(context.domain, env)) by { reveal(lz_ok); }
             if sem(c.lhs, env) is Some && sem(c.rhs, env) is Some { assert(sem(lhs, env) == sem(c.lhs, env) && sem(rhs, env) == sem(c.rhs, env)); assert(sem(lhs, env) is Some); }
         }
         lemma_step(q0, popped, a, b, context, c);
@@ -78,10 +73,12 @@
         lemma_step(q0, popped, a, b, context, c);
         popped = popped.push(c);
     }
-// a comparison whose (assumed) normal form is a logic assertion
+// a comparison whose normal form is a logic assertion
 @fn lower_all_constraints @before "continue" #4
     proof {
         assert forall|env: Env| #[trigger] lz_ok(context, env) implies c_holds_w(c, env) by {
+            lemma_lz_ext_mono(b, context, env);
+            assert(dom_ok(b.domain, env)) by { reveal(lz_ok); }
             if sem(c.lhs, env) is Some && sem(c.rhs, env) is Some { assert(sem(lhs, env) == sem(c.lhs, env) && sem(rhs, env) == sem(c.rhs, env)); assert(sem(lhs, env) is Some); }
         }
         lemma_step(q0, popped, a, b, context, c);
